@@ -3,42 +3,71 @@ VARIANT = "san"
 RULE = ("see stats; includes an object-history stream (counters hist_*): public mutators and computeRowPlacementArea / "
         "expandCellsToDensity / expandCellsByFactor / computeCellExpansion interleaved on ONE Circuit object (the expansions "
         "accumulate), every observation compared with the oracle, with the same call on a freshly rebuilt circuit and, when "
-        "nothing rounds, with the model")
+        "nothing rounds, with the rational model; counters F_*: calls compared exactly with the binary64/binary32-exact model "
+        "(F_*_inexact: at least one floating-point operation of the call rounds), stream r: full-mantissa arguments")
 TIMEOUT = {"quick": 1200, "thorough": 3 * 3600, "search": 1800}
 PARTIAL = [
-    "floating-point rounding is not modelled: the model (Model/Expand.lean) and all C18 theorems compute with exact "
-    "rationals, i.e. they describe the code on inputs where no double/float operation rounds; the clause 'beyond "
-    "rounding' is supported for arbitrary inputs only by the direct oracle (relative tolerance 1e-9 for the double "
-    "path, 1e-6 for the float path of expandCellsByFactor), not by proof",
-    "widths >= 2^24 (inexact float product in `cellWidth_[i] *= expansion[i]`) and int overflow are outside the "
-    "generated domain; C++ int/long long are modelled as unbounded Int",
-    "carry_bound / expand_not_narrower / byFactor_under_cap assume non-negative cell sizes (the property's domain); "
-    "the frame theorems hold for all inputs",
-    "the std::sort of the expansion map in computeCellExpansion is not modelled (only a maximum over the map is taken)",
+    "floating-point rounding IS modelled (Model/ExpandF.lean: every double operation f64, every float operation f32', "
+    "compared exactly with the code on arbitrary arguments) and these clauses are proved for the rounded model, all inputs: "
+    "frame (expandF_frame, byFactorF_frame), no-op when dense, never narrower (expandF_not_narrower; byFactorF_not_narrower for "
+    "factors >= 1, any width; byFactorF_width_lower_bound for every accepted factor >= 0.999f), utilisation of "
+    "expandCellsToDensity <= target*rowArea*(1+2^-50) + touchedCells*2^-51*maxHeight (expandF_utilisation), the maximum "
+    "rule of computeCellExpansion over the float-rounded region factors, independent of the order left by std::sort "
+    "(cellExpansionF_max, cellExpansionF_order_independent, regionFactorF_ge_one_and_monotone)",
+    "NOT proved with rounding: the utilisation cap of expandCellsByFactor (byFactorF_utilisation_full_statement: <= "
+    "max(maxDensity*rowArea, area before)*(1+2^-22) + n*2^-50*sum(e_i*area_i)); proved part byFactorF_utilisation_partial: "
+    "area after <= (1+2^-24) * sum(applied factor_i * area_i) (the float path, widths <= 2^24; (1+2^-24)^2 for any width, byFactorF_utilisation_partial_any_width), every applied factor >= 0.999f (>= 1 when "
+    "the given one is); the double path (expandedArea accumulation, expandedDensity, ratio) is proved only in exact "
+    "arithmetic (byFactor_under_cap) and supported with rounding by the exact correspondence and the oracle (1e-6)",
+    "NOT proved with rounding: the 'within one cell height of target*rowArea' clause (carry_bound (2), exact arithmetic only)",
+    "never narrower for expandCellsByFactor is proved for ALL widths (byFactorF_not_narrower, no 2^24 bound) for the code after "
+    "fixes/c18-byfactor-wide-cells.diff; before it a width above 2^24 could shrink (int -> float conversion): "
+    "legacy_byFactorF_wide_witness (width 2^24+1, factor 1.0f -> 2^24; Model/LegacyExpandF.lean), replayed first on the real "
+    "code as case w3 (corpus/C18/byfactor-wide-width.txt); widths up to 2^28 are now in the by-factor generators and the "
+    "never-narrower oracle is unconditional; the rational model is unchanged because the repair is a no-op in exact arithmetic "
+    "for w >= 0 (byFactor_repair_noop_exact; calls with a negative movable width are not sent to the rational model)",
+    "factors in [0.999f, 1) are accepted by the code (threshold `e < 0.999f`) and shrink cells (byFactorF_below_one_witness, "
+    "case w2: 1000 -> 999); they are outside the property's quantifier (factor vectors >= 1)",
+    "the rounded model is the compiled code on the decidable guards densityGuard / byFactorGuard / cellExpansionGuard / "
+    "rowGuard (finite values, conversions to int / long long in range, nonzero rounded density, carry loop within fuel); "
+    "the driver answers out-of-domain elsewhere and the harness sends only calls inside a replica of the guards; "
+    "C++ int/long long arithmetic itself is modelled by unbounded Int",
+    "carry_bound / expand_not_narrower / byFactor_under_cap / expandF_utilisation assume non-negative cell sizes (the "
+    "property's domain); the frame theorems hold for all inputs",
     "that the expansion calls depend on the public state only (no stale row area or free rows kept inside the object between "
     "calls) is checked by the object-history stream (random sequences of every public mutator and 3-8 observed calls on one "
     "object, result for result against a freshly rebuilt circuit), not proved",
 ]
 ASSUMPTIONS = [
-    "double/float arithmetic modelled by exact rational arithmetic; (int)/(long long) conversions and the compound "
-    "assignments `w -= <double>`, `cellWidth_[i] *= <float>` modelled as truncation toward zero",
+    "Model/ExpandF.lean: IEEE-754 binary64/binary32 round-to-nearest-even (Model/F64.lean) for every double/float operation, "
+    "x86-64 SSE2 evaluation (FLT_EVAL_METHOD 0, no fused multiply-add), conversions truncate toward zero; unbounded exponent "
+    "range above (finiteness is a guard)",
+    "Model/Expand.lean: double/float arithmetic modelled by exact rational arithmetic (compared with the code only where "
+    "nothing rounds)",
     "Circuit::computeRows as modelled and verified under C15",
-    "the model of expandCellsByFactor is the function after fixes/expand-by-factor-area.diff; the unrepaired "
-    "function is kept as LegacyExpand.expandCellsByFactor with a witness that it exceeds the cap",
+    "the model of expandCellsByFactor is the function after fixes/expand-by-factor-area.diff and "
+    "fixes/c18-byfactor-wide-cells.diff; the unrepaired functions are kept as LegacyExpand.expandCellsByFactor (exceeds the "
+    "cap) and LegacyExpandF.expandCellsByFactor (narrows a cell wider than 2^24), each with its witness theorem",
 ]
-LEVEL_TEXT = ("Lean 4 theorems over an exact-rational executable model of expandCellsToDensity, expandCellsByFactor, "
-              "computeCellExpansion and computeRowPlacementArea (frame, not narrower under the cap, carried rounding "
+LEVEL_TEXT = ("Lean 4 theorems over two executable models of expandCellsToDensity, expandCellsByFactor, computeCellExpansion and "
+              "computeRowPlacementArea: an exact-rational one (frame, not narrower under the cap, carried rounding "
               "error below one cell height hence area <= target*rowArea and > target*rowArea - maxHeight when no cap is "
               "hit, area <= max(maxDensity*rowArea, area before) for expansion by factors, no-op when dense, expansion "
-              "factor = maximum over intersected congested regions); the model is tied to the C++ by an exact "
-              "differential stream on dyadic instances where a replica of the floating-point operation sequence proves "
-              "that nothing rounds; on arbitrary instances the property's clauses are evaluated directly on the real code; an "
+              "factor = maximum over intersected congested regions) and a binary64/binary32-exact one (every double/float "
+              "operation with IEEE rounding: frame, never narrower with its exact limits, utilisation of expandCellsToDensity "
+              "with a proved slack 2^-50 relative + 2^-51*height per cell, float path of expandCellsByFactor, maximum rule "
+              "over float-rounded region factors independent of the sort order); the rational model is tied to the C++ by an "
+              "exact differential stream on dyadic instances where a replica of the floating-point operation sequence proves "
+              "that nothing rounds, the rounded model by an exact differential stream on ARBITRARY arguments (full-mantissa "
+              "targets, margins, caps, factors, penalties, congestion values; widths up to 2^28; all widths, the "
+              "returned ratio and every expansion factor compared bit for bit); on every instance the property's clauses are "
+              "evaluated directly on the real code; an "
               "object-history stream interleaves every public mutator (setRows, setupRows with all flag combinations, the "
               "per-cell setters, setSolution, addNet) with the four observed calls on one Circuit object (same call twice, call "
               "-> one mutator -> same call, the same side margin within a history) and checks each call against the oracle on "
               "a snapshot of the public state, result for result against the same call on a freshly constructed circuit "
-              "rebuilt through the public setters, and against the model")
-LEVEL_NOTE = ("Trusted: Lean kernel (axioms propext/Classical.choice/Quot.sound only), the hand-written model's tie to the "
-              "code (differential, bounded by the generator), exact rationals for double/float (rounding not modelled), "
-              "unbounded Int for C++ int.")
-TECHNIQUE = "Lean 4 proof over Rat (induction over the cell list with the carried area as invariant) + exact model/implementation correspondence on dyadic instances + invariant oracle + object-history stream (metamorphic comparison with a freshly rebuilt circuit)"
+              "rebuilt through the public setters, and against the models")
+LEVEL_NOTE = ("Trusted: Lean kernel (axioms propext/Classical.choice/Quot.sound only), the hand-written models' tie to the "
+              "code (differential, bounded by the generator), the IEEE rounding model Model/F64.lean and the evaluation-method "
+              "assumption (SSE2, no contraction), unbounded Int for C++ int.")
+TECHNIQUE = "Lean 4 proof over Rat and over an IEEE-rounding model (induction over the cell list with the carried area as invariant; monotonicity, exactness and relative-error lemmas of round-to-nearest-even) + exact model/implementation correspondence on dyadic instances (rational model) and on arbitrary instances (rounded model) + invariant oracle + object-history stream (metamorphic comparison with a freshly rebuilt circuit)"
